@@ -23,12 +23,21 @@ where
 }
 
 /// Association-list model of the instruction registry's only use (insert, then look one name up):
-/// the `TARGET_ORD`-th insert into a `HashMap<String, Instruction>` is kept in `SLOT` together with
-/// a fingerprint of its key. Every other instantiation of `HashMap::insert` runs the real `entry` API.
-pub static mut TARGET_ORD: usize = usize::MAX;
-pub static mut INSERTS: usize = 0;
-pub static mut SLOT: Option<Instruction> = None;
-pub static mut SLOT_KEY: (usize, u8, u8) = (0, 0, 0);
+/// the `TARGET_ORD`-th insert into a `HashMap<String, Instruction>` is kept (as a raw Box pointer) in
+/// `SLOT` together with a fingerprint of its key. Every other instantiation of `HashMap::insert` runs
+/// the real `entry` API.
+///
+/// IMPORTANT (Kani 0.68): a `static mut` whose initial bytes equal those of some constant (all zeroes,
+/// usize::MAX, ...) is merged with that constant's allocation - writing to it silently changes e.g. the
+/// capacity field of every `Vec::new()`. Every mutable static of this crate therefore starts from a
+/// unique magic value and is used relative to it; `c00_sanity` checks that `Vec::new()` is unaffected.
+pub const MAGIC: usize = 0x5EED_0000_0000_0000;
+pub static mut TARGET_ORD: usize = MAGIC + 0x0101;
+pub static mut INSERTS: usize = MAGIC + 0x0201;
+pub static mut SLOT: usize = MAGIC + 0x0301;
+pub static mut SLOT_KEY_LEN: usize = MAGIC + 0x0401;
+pub static mut SLOT_KEY_FIRST: usize = MAGIC + 0x0501;
+pub static mut SLOT_KEY_LAST: usize = MAGIC + 0x0601;
 
 pub fn hashmap_insert<K, V, S, A>(map: &mut HashMap<K, V, S, A>, k: K, v: V) -> Option<V>
 where
@@ -44,10 +53,12 @@ where
             let ks: &String = &*(&k as *const K as *const String);
             if INSERTS == TARGET_ORD {
                 let b = ks.as_bytes();
-                SLOT_KEY = (b.len(), b[0], b[b.len() - 1]);
+                SLOT_KEY_LEN = MAGIC + b.len();
+                SLOT_KEY_FIRST = MAGIC + b[0] as usize;
+                SLOT_KEY_LAST = MAGIC + b[b.len() - 1] as usize;
                 let vi: Instruction = std::mem::transmute_copy::<V, Instruction>(&v);
                 std::mem::forget(v);
-                SLOT = Some(vi);
+                SLOT = Box::into_raw(Box::new(vi)) as usize;
             } else {
                 std::mem::forget(v);
             }
@@ -70,17 +81,21 @@ where
 /// Fetch instruction number `ord` of a `load_*_instructions` function and check the captured key.
 pub fn fetch(load: fn(&mut HashMap<String, Instruction>), ord: usize, name: &'static str) -> Instruction {
     unsafe {
-        TARGET_ORD = ord;
-        INSERTS = 0;
-        SLOT = None;
+        TARGET_ORD = MAGIC + 0x0201 + ord;
+        INSERTS = MAGIC + 0x0201;
+        SLOT = MAGIC + 0x0301;
     }
     let mut map: HashMap<String, Instruction> = HashMap::new();
     load(&mut map);
     std::mem::forget(map);
     let b = name.as_bytes();
     unsafe {
-        assert!(SLOT_KEY == (b.len(), b[0], b[b.len() - 1]), "registry ordinal/name mismatch (extract.py vs runtime)");
-        SLOT.take().expect("instruction not captured")
+        assert!(SLOT != MAGIC + 0x0301, "instruction not captured (registry ordinal out of range)");
+        assert!(
+            SLOT_KEY_LEN == MAGIC + b.len() && SLOT_KEY_FIRST == MAGIC + b[0] as usize && SLOT_KEY_LAST == MAGIC + b[b.len() - 1] as usize,
+            "registry ordinal/name mismatch (extract.py vs runtime)"
+        );
+        *Box::from_raw(SLOT as *mut Instruction)
     }
 }
 
